@@ -103,6 +103,8 @@ def tolist(x):
         return "%d/%d" % (x.numerator, x.denominator)
     if isinstance(x, (list, tuple)):
         return [tolist(y) for y in x]
+    if isinstance(x, dict):
+        return {k: tolist(v) for k, v in x.items()}
     return x
 
 
@@ -112,6 +114,8 @@ def fromlist(x):
         return Fr(int(a), int(b))
     if isinstance(x, list):
         return [fromlist(y) for y in x]
+    if isinstance(x, dict):
+        return {k: fromlist(v) for k, v in x.items()}
     return x
 
 
